@@ -36,6 +36,7 @@ probes! {
     P_MAKE_MUT_INPLACE = "make_mut_in_place";
     P_MAKE_MUT_CLONED = "make_mut_cloned";
     P_UNWRAP_MOVED = "value_moved_out";
+    P_ASSUME_INIT_SHARED = "assume_init_while_another_MaybeUninit_owner_exists";
     P_DE_IN_PLACE_ERR = "deserialize_in_place_rejected_malformed_input";
     P_UNWRAP_KEPT = "unwrap_declined_handle_kept";
     P_LAST_OWNER_THIN = "last_owner_was_ThinArc";
